@@ -43,6 +43,7 @@ def recv_field(body, t):
 
 def run(ctx, rep):
     prog = ctx.prog
+    wiring_rule(ctx, rep, "C16")
     rep.rule("C16.a", "hot write before cold write (propagated); cold remove before hot remove")
     rep.rule("C16.b", "routing predicates of write_bytes / remove / read_partial / read_full agree over FileType x cacheable")
     rep.rule("C16.c", "warm_up_wait dominates cold pack reads and is propagated")
